@@ -57,7 +57,7 @@ func litSamples(rng *rand.Rand, kind string) string {
 				return string(b)
 			}
 			esc := func() string {
-				return pick(`\t`, `\n`, `\\`, `\"`, `\u00e9`, `\x41`, `\101`, "é", "€", "😀", `\U0001F600`, `\a`, `\v`)
+				return pick(`\t`, `\n`, `\\`, `\"`, `\u00e9`, `\x41`, `\101`, "é", "€", "😀", `\U0001F600`, `\a`, `\v`, "\uFFFD", `\ufffd`, "\u0080", "\u07ff")
 			}
 			lit := `"` + plain(rng.Intn(14))
 			for k := rng.Intn(4); k >= 0; k-- {
@@ -65,7 +65,7 @@ func litSamples(rng *rand.Rand, kind string) string {
 			}
 			return lit + `"`
 		}
-		return pick(`"abc"`, `""`, `"a\tb"`, `"\u00e9"`, `"é"`, `"\x41\x80"`, `"\101"`, `"\400"`, `"\q"`, `"\/"`, "\"a\xffb\"", "\"a\x80b\"", "\"\x80\"", `"unterminated`, "\"a\nb\"", "\"\n\"", `"\"`, `"a\"b"`, "`raw\n`", "``", "`unterminated",
+		return pick(`"abc"`, `""`, `"a\tb"`, `"\u00e9"`, `"é"`, `"\x41\x80"`, `"\101"`, `"\400"`, `"\q"`, `"\/"`, "\"a\xffb\"", "\"a\x80b\"", "\"\uFFFD\"", "\"a\uFFFDb\"", "\"\x80\"", `"unterminated`, "\"a\nb\"", "\"\n\"", `"\"`, `"a\"b"`, "`raw\n`", "``", "`unterminated",
 			`"\ud800"`, `"\U0001F600"`, `"\U00110000"`, "\"é\nx\"", "\"\\t\nx\"", `"\'"`, `"'"`, "\"\r\"", `"a\`, "\"\xe2\x82\"", `"😀"`)
 	case "char":
 		return pick(`'a'`, `'\n'`, `'\''`, `'\\'`, `'\x41'`, `'\xff'`, `'\u00e9'`, `'\ud800'`, `'\U0001F600'`, `'\U00110000'`, `'é'`, `'ab'`, `''`, `'`, `'a`, "'\xff'", "'\n'", `'\q'`, `'"'`, `'\"'`, `'\x4'`, `'😀'`, `'\101'`)
